@@ -413,8 +413,11 @@ pub fn exec(w: &[&str], obs: &mut Obs) -> Option<String> {
             let at = run_lex(&Cap::fresh(n), &[Step::Repeat(1)], &d, false, false);
             if at.out == "err:full" { obs.violation("full-although-fits", &case(), &format!("need {}", n)); }
             if n >= 2 {
-                let below = run_lex(&Cap::fresh(n - 1), &[], &d, false, false);
-                if below.out != "err:full" { obs.violation("need-not-tight", &case(), &format!("need {} but cap {} gives {}", n, n - 1, below.out)); }
+                // C07_buffer_full_iff: under EVERY fault-free schedule (whole reads and one byte at a time are the extremes)
+                for steps in [vec![], vec![Step::Repeat(1)]] {
+                    let below = run_lex(&Cap::fresh(n - 1), &steps, &d, false, false);
+                    if below.out != "err:full" { obs.violation("need-not-tight", &case(), &format!("need {} but cap {} gives {}", n, n - 1, below.out)); }
+                }
             }
             obs.count("tneed");
             Some(format!("{}", n))
